@@ -10,20 +10,22 @@ Open Scope list_scope.
 Definition cls0 : list (list string) := [["a"; "b"]; ["a"; "b"; "c"]; ["pos"; "w"]; ["x"]].
 Definition pri0 : list (nat * (Z * Z)) := map (fun p => (p, (0, 10)%Z)) (seq 0 8).
 (* HISTORY: the pinned wrapper, no clean-up on exceptions (before 5afd9f1) *)
-Definition cfg_pinned : config := mkConfig cls0 pri0 false true true false false false.
+Definition cfg_pinned : config := mkConfig cls0 pri0 false true true false false false false.
 (* HISTORY: wrapper repaired (5afd9f1), prior passing still thaws self, __setitem__ still transfers ids *)
-Definition cfg_repaired : config := mkConfig cls0 pri0 true true true false false false.
+Definition cfg_repaired : config := mkConfig cls0 pri0 true true true false false false false.
 (* HISTORY: b8214a7 (prior passing works on a copy) and 6df133a (no id transfer to a caller's object) as well; deletion
    unguarded, TuplePrior not freezable, no modification counter (before 6ba0708, b49160e, 29fc8b9) *)
-Definition cfg_fixed : config := mkConfig cls0 pri0 true false false false false false.
+Definition cfg_fixed : config := mkConfig cls0 pri0 true false false false false false false.
 (* /repo today: 6ba0708 delattr guarded, b49160e tuple priors frozen with their owner, 29fc8b9 caches count modifications *)
-Definition cfg_all : config := mkConfig cls0 pri0 true false false true true true.
+(* HISTORY (b49160e .. 916e580): all repairs but a restored TuplePrior kept its stored flag *)
+Definition cfg_norestore : config := mkConfig cls0 pri0 true false false true true true false.
+Definition cfg_all : config := mkConfig cls0 pri0 true false false true true true true.
 (* ... the applied repairs are switched on in the configuration the correspondence runs (breaks if a constant of
    Model.v is flipped back); the three proposed repairs are cfg_all below, selected by delattr_guarded, tuples_frozen,
    cache_counts_modifications *)
 Example current_is_fixed :
   wrapper_cleanup = true /\ derive_thaws = false /\ setitem_transfers = false /\
-  delattr_guarded = true /\ tuples_frozen = true /\ cache_counts_modifications = true.
+  delattr_guarded = true /\ tuples_frozen = true /\ cache_counts_modifications = true /\ tuple_flag_restored = true.
 Proof. repeat split. Qed.
 (* both configurations start from the same empty heap with the eight priors of pri0 *)
 Definition init0 : state := mkState [] [] pri0.
@@ -322,12 +324,12 @@ Proof. vm_compute. reflexivity. Qed.
    hypothesis of the full theorem: no guard is left *)
 Lemma current_all_repaired : forall cl pr,
   all_repaired (mkConfig cl pr wrapper_cleanup derive_thaws setitem_transfers delattr_guarded tuples_frozen
-                         cache_counts_modifications).
+                         cache_counts_modifications tuple_flag_restored).
 Proof. intros. repeat split. Qed.
 
 Lemma coherent_current : forall cl pr,
   coherent_everywhere (mkConfig cl pr wrapper_cleanup derive_thaws setitem_transfers delattr_guarded tuples_frozen
-                                cache_counts_modifications).
+                                cache_counts_modifications tuple_flag_restored).
 Proof. intros. apply coherent_when_repaired. apply current_all_repaired. Qed.
 
 (* an unguarded history of today's code (modification below a frozen ancestor, tuple member, delattr) *)
@@ -336,3 +338,24 @@ Example current_unguarded_history_is_coherent :
   snd (run cfg_all (h_stale ++ [OQuery 1 QCount]) init0)
   = snd (run cfg_all h_stale init0) ++ [snd (run_query cfg_all 1 QCount (fresh (fst (run cfg_all h_stale init0))))].
 Proof. split; vm_compute; reflexivity. Qed.
+
+(* ------------------------------------------------------------------ restoring a frozen model with a TuplePrior (916e580) *)
+Definition h_restore : list op :=
+  [ONew KTuple [("pos_0", VPrior 0); ("pos_1", VConst 2)] 0; ONew (KModel 2) [("pos", VRef 0); ("w", VPrior 1)] 0; OFreeze 1].
+
+(* HISTORY (b49160e without 916e580): the database form of a frozen model holding a TuplePrior could not be rebuilt *)
+Lemma restore_legacy_raises : snd (step cfg_norestore (ORestore 1 RDatabase) (fst (run cfg_norestore h_restore init0))) = Exn EAssertion.
+Proof. vm_compute. reflexivity. Qed.
+
+(* today: every restore succeeds, the restored object answers like the original, and the tuple prior carries the
+   flag of its owner: frozen for copy / pickle / shallow copy of a frozen model, unfrozen for the database form *)
+Example restore_now :
+  snd (run cfg_all (h_restore ++ [OQuery 1 QCount; OCopy 1; ORestore 1 RShallow; ORestore 1 RDatabase;
+                                  OQuery 2 QCount; OQuery 4 QCount; OQuery 5 QCount;
+                                  OSet 3 "pos_1" (VPrior 2); OSet 6 "pos_1" (VPrior 2); OQuery 5 QCount; OQuery 1 QCount]) init0)
+  = [Ok AUnit; Ok AUnit; Ok AUnit; Ok (ANat 2); Ok AUnit; Ok AUnit; Ok AUnit; Ok (ANat 2); Ok (ANat 2); Ok (ANat 2);
+     Exn EAssertion; Ok AUnit; Ok (ANat 3); Ok (ANat 2)]
+  /\ map ofrozen (heap (fst (run cfg_all (h_restore ++ [OCopy 1; ORestore 1 RShallow; ORestore 1 RDatabase]) init0)))
+     = [true; true; true; true; true; false; false]
+  /\ tuple_flags_ok (fst (run cfg_all (h_restore ++ [OCopy 1; ORestore 1 RShallow; ORestore 1 RDatabase]) init0)) = true.
+Proof. repeat split; vm_compute; reflexivity. Qed.
